@@ -13,15 +13,17 @@ FUNDS_SEQS = [[], [[]], [[["atom", "1"]]], [[["atom", "1"]], [["atom", "2"], ["b
 ADDRS = ["target0", "cosmwasm1other"]
 
 
-def run_e2(res, tier):
-    cp, info = fam_basic.corpus(tier)
-    fam_basic.report_failed(res, cp)
+def run_e2(res, tier, which="basic"):
+    cp, info = fam_basic.corpus(tier, which)
+    fam_basic.report_failed(res, cp, which)
     cases, exp = [], []
     for pid, (c, tags, names) in sorted(info.items()):
         if pid in cp.failed:
             continue
         per = {}
         for (label, disp, m) in fam_basic.handlers(c):
+            if "assoc" in tags:
+                m = fam_basic.concrete_method(m)   # values are drawn for the types the contract assigns to the associated types
             if m.kind in ("exec", "query"):
                 per.setdefault((label, m.kind), []).append((disp, m))
         for (label, kind), ms in sorted(per.items()):
@@ -174,7 +176,7 @@ def run_e2(res, tier):
             res.outcome(("query", got["h"] == h))
             if got["h"] != h or got["args"] != want_echo["args"]:
                 bad("target answered from %s with %s; helper was %s with %s" % (got["h"], got["args"], h, want_echo["args"]), "misrouted")
-    res.parts["e2_cases"] = len(cases)
+    res.parts["e2_cases" + ("" if which == "basic" else "_" + which)] = len(cases)
     res.sample(lambda: {"case": cases[3], "built": obs[3]})
 
 
@@ -194,6 +196,8 @@ def run(tier):
     else:
         out = e4.stub()
     run_e2(res, tier)
+    # interfaces with several associated types, handlers first using them in and out of declaration order (dyn and contract-typed handles)
+    run_e2(res, tier, "assoc")
     res.cov["rule"] = ("E4: breadth-first over builder call sequences to depth %d: executor (2 addresses x all with_funds sequences over 3 fund values x 4 methods "
                        "incl. a dyn-interface handle x owned/borrowed), instantiate builder (all sequences over 6 setters incl. repeats x 2 argument tuples x "
                        "{build, build2 with 2 salts}), admin helpers, query helpers over a recording querier answering with the target's real query path. "
